@@ -29,6 +29,10 @@ type Run struct {
 	findings    []finding
 	seenKeys    map[string]bool
 	Exhaustive  bool
+	// replayKey != "": whole-run replay mode (cheap checks): the enumeration runs as usual, nothing is written, and the
+	// run exits 1 iff a violation with exactly this key is raised again.
+	replayKey  string
+	replaySeen bool
 }
 
 type finding struct {
@@ -143,11 +147,34 @@ func (r *Run) NotExhaustive(why string) {
 	r.Cov["caps_hit"] = append(caps, why)
 }
 
+// ReplayWholeRun switches the run into whole-run replay mode for the artefact at path (see replayKey).
+func (r *Run) ReplayWholeRun(path string) {
+	b, err := os.ReadFile(path)
+	if err != nil {
+		fmt.Fprintln(os.Stderr, "replay:", err)
+		os.Exit(2)
+	}
+	var a struct {
+		Key string `json:"key"`
+	}
+	if err := json.Unmarshal(b, &a); err != nil || a.Key == "" {
+		fmt.Fprintln(os.Stderr, "replay: artefact has no key")
+		os.Exit(2)
+	}
+	r.replayKey = a.Key
+}
+
 // Violation reports one violation class. key identifies the failing call site/shape (matched against
 // known_findings.json); artefact is the replayable case. Returns true if it counted as a new violation.
 func (r *Run) Violation(key string, artefact any) bool {
 	r.mu.Lock()
 	defer r.mu.Unlock()
+	if r.replayKey != "" {
+		if key == r.replayKey {
+			r.replaySeen = true
+		}
+		return false
+	}
 	for _, f := range r.findings {
 		if f.re.MatchString(key) {
 			r.knownHit[f.Match+"\x00"+f.What]++
@@ -179,6 +206,14 @@ func (r *Run) Violations() int { r.mu.Lock(); defer r.mu.Unlock(); return r.viol
 
 // Finish writes the evidence file and exits 0/1.
 func (r *Run) Finish() {
+	if r.replayKey != "" {
+		if r.replaySeen {
+			fmt.Printf("replay: still fails: %s\n", r.replayKey)
+			os.Exit(1)
+		}
+		fmt.Printf("replay: no longer fails: %s\n", r.replayKey)
+		os.Exit(0)
+	}
 	r.mu.Lock()
 	keys := make([]string, 0, len(r.knownHit))
 	for k := range r.knownHit {
